@@ -18,8 +18,8 @@ META["C07"] = {
     "assumptions": ["oracle: fv/props/c07.py::designated (F2008 11.2.2, 16.5.1.4)"],
 }
 
-GEOMETRY = ["module geometry", "type circle", "integer :: c", "end type circle", "type, private :: hidden", "integer :: c",
-            "end type hidden", "abstract interface", "subroutine area_iface()", "end subroutine area_iface", "end interface",
+GEOMETRY = ["module geometry", "private :: Secret, SECRET_IFACE", "type circle", "integer :: c", "end type circle", "type, private :: hidden", "integer :: c",
+            "end type hidden", "type secret", "integer :: c", "end type secret", "abstract interface", "subroutine area_iface()", "end subroutine area_iface", "end interface",
             "interface", "subroutine ext_proc()", "end subroutine ext_proc", "end interface",
             "end module geometry"]
 PUB = {"circle": "type", "area_iface": "absint", "ext_proc": "proc"}
@@ -40,7 +40,7 @@ USES = [
 ]
 TYPE_REFS = [("type(circle) :: v", "circle"), ("type(Circle) :: v", "circle"), ("TYPE(CIRCLE) :: V", "circle"), ("type(disc) :: v", "disc"),
              ("type(DISC) :: v", "disc"), ("type(shape) :: v", "shape"), ("type(Shape) :: v", "shape"), ("class(shape), pointer :: v", "shape"),
-             ("type(hidden) :: v", "hidden"), ("type(nowhere) :: v", "nowhere")]
+             ("type(hidden) :: v", "hidden"), ("type(nowhere) :: v", "nowhere"), ("type(secret) :: v", "secret"), ("type(Secret) :: v", "secret")]
 PROC_REFS = [("procedure(area_iface), pointer :: p", "area_iface"), ("procedure(Area_Iface), pointer :: p", "area_iface"),
              ("procedure(fn), pointer :: p", "fn"), ("PROCEDURE(FN), POINTER :: P", "fn"), ("procedure(host_iface), pointer :: p", "host_iface"),
              ("procedure(Host_Iface), pointer :: p", "host_iface"), ("procedure(nowhere), pointer :: p", "nowhere")]
